@@ -1,3 +1,5 @@
+//go:build verif
+
 package zz_verif
 
 import (
@@ -76,3 +78,8 @@ func H_C19_sort() {
 		vx.Assert("C19", r < 0, "Sort output ascending")
 	}
 }
+
+var _ = register("H_C19_hashorder", H_C19_hashorder)
+var _ = register("H_C19_clock", H_C19_clock)
+var _ = register("H_C19_fww", H_C19_fww)
+var _ = register("H_C19_sort", H_C19_sort)
